@@ -138,6 +138,14 @@ def gen_C14(d):
 
 RENDER = {"C14": gen_C14}
 
+# plug-ins: bin/render_<group>.py defines GROUP = "Cxx" and render(d, h) -> list of problems,
+# where d is the facts document and h this module (h.put, h.lstr, h.llist, h.node_types, …).
+import importlib.util
+for _p in sorted(glob.glob(os.path.join(V, "bin", "render_*.py"))):
+    _spec = importlib.util.spec_from_file_location(os.path.basename(_p)[:-3], _p)
+    _m = importlib.util.module_from_spec(_spec); _spec.loader.exec_module(_m)
+    RENDER[_m.GROUP] = (lambda m: (lambda d: m.render(d, sys.modules[__name__])))(_m)
+
 def main():
     groups = sys.argv[1:]
     if not groups: print(__doc__); sys.exit(2)
